@@ -325,9 +325,9 @@ func (env *Env) index(x, i *Value, n *Node) *Value {
 			E := e.comp(env.st, e.elemComp(u.Elem()), arr2Sort(e.sorts.sortOf(u.Elem())))
 			if _, isStruct := u.Elem().Underlying().(*types.Struct); isStruct && !isTimeTime(u.Elem()) && !isOpaqueStruct(u.Elem()) {
 				// element struct value
-				return term(sel(sel(E, app("sarr", x.T)), app("+", app("soff", x.T), i.T)), e.sorts.sortOf(u.Elem()), u.Elem())
+				return term(sel(sel(E, app("sarr", x.T)), app("idx", x.T, i.T)), e.sorts.sortOf(u.Elem()), u.Elem())
 			}
-			return term(sel(sel(E, app("sarr", x.T)), app("+", app("soff", x.T), i.T)), e.sorts.sortOf(u.Elem()), u.Elem())
+			return term(sel(sel(E, app("sarr", x.T)), app("idx", x.T, i.T)), e.sorts.sortOf(u.Elem()), u.Elem())
 		case *types.Map:
 			_, vn, _ := e.mapComps(u)
 			ks, vs := e.sorts.sortOf(u.Key()), e.sorts.sortOf(u.Elem())
@@ -417,8 +417,7 @@ func (env *Env) binop(n *Node) *Value {
 	case "==", "!=":
 		var t string
 		switch {
-		case a.Sort == sF64:
-			t = app("fp.eq", a.T, b.T)
+		// note: on floats, contract `==` is identity (NaN == NaN), not IEEE equality; use feq(a, b) for the latter
 		case a.Sort == sSlice && (a.T == "NILSLICE" || b.T == "NILSLICE"):
 			x := a
 			if a.T == "NILSLICE" {
@@ -559,6 +558,17 @@ func (env *Env) call(n *Node) *Value {
 			t = app("sarr", x.T)
 		}
 		return term(and(not(sel(e.comp(env.old, "alloc", arrSort(sBool)), t)), not(eq(t, "0"))), sBool, boolT)
+	case "isnew": // nil, or allocated after function entry
+		x := arg(0)
+		if env.old == nil {
+			env.fail("isnew() needs a pre-state")
+		}
+		t := x.T
+		if x.Sort == sSlice {
+			t = app("sarr", x.T)
+		}
+		a0 := e.comp(env.f.entry, "alloc", arrSort(sBool))
+		return term(or(eq(t, "0"), not(sel(a0, t))), sBool, boolT)
 	case "allocated":
 		x := arg(0)
 		return term(sel(e.comp(env.st, "alloc", arrSort(sBool)), x.T), sBool, boolT)
@@ -747,7 +757,7 @@ func (env *Env) targets(n *Node) []target {
 		i := env.eval(n.Kids[1])
 		switch u := x.Type.Underlying().(type) {
 		case *types.Slice:
-			return []target{{kind: "loc", loc: &Loc{Comp: e.elemComp(u.Elem()), Idx: []string{app("sarr", x.T), app("+", app("soff", x.T), i.T)}, Type: u.Elem(), Root: u.Elem()}}}
+			return []target{{kind: "loc", loc: &Loc{Comp: e.elemComp(u.Elem()), Idx: []string{app("sarr", x.T), app("idx", x.T, i.T)}, Type: u.Elem(), Root: u.Elem()}}}
 		}
 		env.fail("unsupported modifies target %s", n)
 	case "call":
@@ -800,4 +810,34 @@ func (e *Encoder) pkgOfFile(file string) *types.Package {
 		}
 	}
 	return nil
+}
+
+// evalSplit evaluates a boolean contract expression into a list of conjuncts (A && B, A ==> (B && C) and predicate
+// calls are split recursively) so that each becomes a small obligation of its own.
+func (env *Env) evalSplit(n *Node) []string {
+	switch {
+	case n.Op == "binop" && n.Name == "&&":
+		return append(env.evalSplit(n.Kids[0]), env.evalSplit(n.Kids[1])...)
+	case n.Op == "binop" && n.Name == "==>":
+		a := env.evalBool(n.Kids[0])
+		var out []string
+		for _, g := range env.evalSplit(n.Kids[1]) {
+			out = append(out, implies(a, g))
+		}
+		return out
+	case n.Op == "call" && env.e().ct.Preds[n.Name] != nil:
+		pd := env.e().ct.Preds[n.Name]
+		if len(pd.Params) != len(n.Kids) {
+			env.fail("pred %s expects %d arguments", n.Name, len(pd.Params))
+		}
+		sub := &Env{f: env.f, names: map[string]*Value{}, bound: env.bound, st: env.st, old: env.old, fnPkg: env.fnPkg}
+		for i, prm := range pd.Params {
+			sub.names[prm.Name] = env.eval(n.Kids[i])
+		}
+		if pkg := env.e().pkgOfFile(pd.File); pkg != nil {
+			sub.fnPkg = pkg
+		}
+		return sub.evalSplit(pd.Body)
+	}
+	return []string{env.evalBool(n)}
 }
